@@ -572,6 +572,15 @@ def dec_req(req):
     return mode, sd, prog, inputs
 
 
+def dec_src_req(req):
+    if _h(req) != 'c29s' or len(req) != 6 or str(req[1]) != 'resolve' or not isinstance(req[5], str):
+        raise ValueError('malformed request')
+    sd, k, j2 = int(str(req[2])), int(str(req[3])), int(str(req[4]))
+    if not (0 <= sd <= 4 and 1 <= k <= 3 and 1 <= j2 <= 3) or 'subroutine kern' not in req[5]:
+        raise ValueError('malformed request')
+    return sd, k, j2, req[5]
+
+
 def has_empty_assoc(prog):
     return any(_h(s) == 'assoc' and not s[1] for u in prog[2:] for s in fir.iter_stmts(u[4]))
 
@@ -602,6 +611,362 @@ def uses_g1(prog):
                 return True
         return False
     return any(walk(u[4], False) for u in prog[2:])
+
+
+
+# ---------------------------------------------------------------------------------------------------------------
+# Targeted family 1 (FIR, judged by execution): partial-depth resolution where an array name of a KEPT outer block (or of the
+# routine) is subscripted / bounded by names of REMOVED inner blocks, in every expression position the resolver visits.
+
+def gen_partial(r):
+    """(mode, sd, prog, inputs): nested ASSOCIATE blocks, array aliases outside, scalar aliases inside, subscripts mixing them"""
+    lo0 = r.random() < 0.3
+    decl_a = 'a(0:3)' if lo0 else 'a(4)'
+    arr_sel = ['a'] if lo0 else ['a', 'a(:)', 'a(1:3)']
+    arr2_sel = ['c(:, %d)' % r.randint(1, 3), 'c(%d, :)' % r.randint(1, 3)]
+    depth = r.choice((2, 2, 3))
+    levels = [[] for _ in range(depth)]
+    arrs1, arrs2, scal = ['a'], ['c'], ['k', 'j2']
+    scopes = []                     # per level: (arrs1, arrs2, scal) visible in its body
+    nm = iter('w v u t s'.split())
+    sn = iter('kk jj ll mm nn'.split())
+    en = iter('e1 e2 e3'.split())
+    for lvl in range(depth):
+        b = levels[lvl]
+        if lvl == 0 or r.random() < 0.3:
+            for _ in range(r.choice((1, 1, 2))):
+                q = r.random()
+                if q < 0.45:
+                    n_ = next(nm); b.append((n_, r.choice(arr_sel))); new1 = n_
+                    arrs1 = arrs1 + [n_]
+                elif q < 0.8:
+                    n_ = next(nm); b.append((n_, r.choice(arr2_sel))); arrs1 = arrs1 + [n_]
+                else:
+                    n_ = next(nm); b.append((n_, 'c')); arrs2 = arrs2 + [n_]
+        if lvl > 0 or r.random() < 0.5:
+            for _ in range(r.choice((1, 1, 2))):
+                n_ = next(sn)
+                b.append((n_, r.choice(scal)))
+                scal = scal + [n_]
+        if lvl > 0 and r.random() < 0.4:
+            n_ = next(en, None)
+            if n_:
+                b.append((n_, '%s(%s)' % (r.choice(arrs1), r.choice(scal + ['1', '2']))))
+        scopes.append((list(arrs1), list(arrs2), list(scal), [x for l in levels[:lvl + 1] for x, sl in l if x.startswith('e')]))
+
+    def stmts(lvl, ind, n):
+        a1, a2, sc, es = scopes[lvl]
+        I = lambda: r.choice(sc + sc + ['1', '2', '3'])
+        out = []
+        for _ in range(n):
+            q = r.random()
+            W = r.choice(a1)
+            if q < 0.3:
+                out.append(f'{ind}{W}({I()}) = {r.choice(a1)}({I()}) + {r.randint(0, 3)}')
+            elif q < 0.45:
+                C = r.choice(a2)
+                out.append(f'{ind}{C}({I()}, {I()}) = {W}({I()}) + {C}({I()}, {r.randint(1, 3)})')
+            elif q < 0.6:
+                out.append(f'{ind}x = x + {W}({I()}) * {r.randint(1, 3)}')
+            elif q < 0.75:
+                out.append(f'{ind}if ({W}({I()}) > {r.randint(0, 4)}) then')
+                out.append(f'{ind}  {r.choice(a1)}({I()}) = {r.randint(0, 5)}')
+                out.append(f'{ind}end if')
+            elif q < 0.9:
+                out.append(f'{ind}do i = {I()}, 3')
+                out.append(f'{ind}  {W}(i) = {r.choice(a1)}({I()}) + i')
+                out.append(f'{ind}end do')
+            elif es:
+                e = r.choice(es)
+                out.append(f'{ind}{e} = {e} + {W}({I()})')
+            else:
+                out.append(f'{ind}x = x - {W}({I()})')
+        return out
+
+    lines = []
+    for lvl in range(depth):
+        ind = '  ' * (lvl + 1)
+        lines.append(ind + 'associate (' + ', '.join(f'{n_} => {sl}' for n_, sl in levels[lvl]) + ')')
+        if lvl < depth - 1 and r.random() < 0.5:
+            lines += stmts(lvl, ind + '  ', 1)
+    lines += stmts(depth - 1, '  ' * (depth + 1), r.randint(2, 4))
+    for lvl in reversed(range(depth)):
+        ind = '  ' * (lvl + 1)
+        lines.append(ind + 'end associate')
+        if lvl > 0 and r.random() < 0.4:
+            lines += stmts(lvl - 1, ind, 1)
+    src = (f'subroutine kernel(a, c, k, j2, x)\n  implicit none\n  integer, intent(inout) :: {decl_a}\n'
+           '  integer, intent(inout) :: c(3, 3)\n  integer, intent(in) :: k\n  integer, intent(in) :: j2\n'
+           '  integer, intent(inout) :: x\n  integer :: i\n' + '\n'.join(lines) + '\nend subroutine kernel\n')
+    prog = fir.export_unit(fir.parse_fortran(src))
+    inputs = []
+    for _ in range(2):
+        inputs.append([[A('a')] + [[A('i'), r.randint(-3, 6)] for _ in range(4)],
+                       [A('c')] + [[A('i'), r.randint(-3, 6)] for _ in range(9)],
+                       [A('k'), [A('i'), r.randint(1, 3)]], [A('j2'), [A('i'), r.randint(1, 3)]],
+                       [A('x'), [A('i'), r.randint(-5, 5)]]])
+    sd = r.choice([s_ for s_ in range(1, depth)] * 3 + [0, depth])
+    return 'resolve', sd, prog, inputs
+
+
+# ---------------------------------------------------------------------------------------------------------------
+# Targeted family 2 (Fortran source with derived types, outside FIR): array-valued components reached through associated
+# parents, subscripted by associate names.  Judged on the real IR by a structural oracle (no ASSOCIATE deeper than start_depth
+# is left; every remaining name is declared or bound by a remaining block), by `gfortran -fsyntax-only` on Loki's own fgen
+# output, and (thorough) by compiling and running original and transformed routine in the same driver program.
+# Request: (c29s resolve SD K J2 "source"); both sides of the correspondence answer (ok structural): not modelled in Lean.
+
+DT_MODULE = """module tmod
+  implicit none
+  type t2
+    real :: val(4)
+  end type t2
+  type tt
+    type(t2) :: items(3)
+    real :: w(4)
+    integer :: m
+  end type tt
+end module tmod
+"""
+
+DT_DRIVER = """
+program drv
+  use tmod
+  implicit none
+  integer, parameter :: n = 4
+  real :: arr3d(n, n, n), res(n)
+  type(tt) :: obj
+  integer :: i, j, l
+  do l = 1, n
+    do j = 1, n
+      do i = 1, n
+        arr3d(i, j, l) = i + 10 * j + 100 * l
+      end do
+    end do
+  end do
+  do j = 1, 3
+    do i = 1, 4
+      obj%items(j)%val(i) = 0.5 * i + j
+    end do
+  end do
+  do i = 1, 4
+    obj%w(i) = 2.0 * i
+  end do
+  obj%m = 2
+  res = 0.0
+  call kern(n, %d, %d, arr3d, res, obj)
+  print *, res
+  print *, obj%%w
+  print *, ((obj%%items(j)%%val(i), i = 1, 4), j = 1, 3)
+end program drv
+"""
+
+
+def gen_dt_source(r):
+    """(sd, k, j2, source)"""
+    depth = r.choice((2, 2, 3))
+    L3 = lambda: r.randint(1, 3)
+    L4 = lambda: r.randint(1, 4)
+    scal, arrs, comps = ['k', 'j2'], [], []     # arrs: 1-d real arrays (index 1..3 ok); comps: things with %val
+    refs0 = [lambda I: f'obj%w({I()})', lambda I: f'obj%items({L3()})%val({I()})', lambda I: f'arr3d({I()}, i, {L4()})']
+    levels = []
+    sn = iter('kk jj ll mm nn'.split())
+    for lvl in range(depth):
+        b = []
+        if lvl == 0 or r.random() < 0.4:
+            for _ in range(r.choice((1, 2, 2))):
+                q = r.random()
+                if q < 0.25:
+                    b.append(('b%d' % lvl, f'arr3d(:, :, {L4()})'))
+                elif q < 0.5:
+                    b.append(('q%d' % lvl, 'obj%items'))
+                elif q < 0.7:
+                    b.append(('ww%d' % lvl, 'obj%w'))
+                elif q < 0.85:
+                    b.append(('p%d' % lvl, f'obj%items({L3()})'))
+                else:
+                    src_ = [n_ for n_, _s in sum(levels, []) if n_.startswith('q')]
+                    if src_:
+                        b.append(('e%d' % lvl, f'{r.choice(src_)}({L3()})%val'))
+                    else:
+                        b.append(('e%d' % lvl, f'obj%items({L3()})%val'))
+        if lvl > 0 or r.random() < 0.6:
+            for _ in range(r.choice((1, 1, 2))):
+                n_ = next(sn)
+                b.append((n_, r.choice(scal)))
+                scal = scal + [n_]
+        seen, bb = set(), []
+        for n_, sl in b:
+            if n_ not in seen:
+                seen.add(n_); bb.append((n_, sl))
+        levels.append(bb)
+    allb = sum(levels, [])
+    I = lambda: r.choice(scal + scal + ['1', '2', '3'])
+
+    def ref():
+        cand = list(refs0)
+        for n_, sl in allb:
+            if n_.startswith('b'):
+                cand.append(lambda I, n_=n_: f'{n_}({I()}, i)')
+                cand.append(lambda I, n_=n_: f'{n_}(i, {I()})')
+            elif n_.startswith('q'):
+                cand.append(lambda I, n_=n_: f'{n_}({L3()})%val({I()})')
+            elif n_.startswith('ww') or n_.startswith('e'):
+                cand.append(lambda I, n_=n_: f'{n_}({I()})')
+            elif n_.startswith('p'):
+                cand.append(lambda I, n_=n_: f'{n_}%val({I()})')
+        return r.choice(cand)(I)
+
+    def wref():
+        cand = [lambda: f'obj%w({I()})', lambda: f'obj%items({L3()})%val({I()})']
+        for n_, sl in allb:
+            if n_.startswith('q'):
+                cand.append(lambda n_=n_: f'{n_}({L3()})%val({I()})')
+            elif n_.startswith('ww') or n_.startswith('e'):
+                cand.append(lambda n_=n_: f'{n_}({I()})')
+            elif n_.startswith('p'):
+                cand.append(lambda n_=n_: f'{n_}%val({I()})')
+        return r.choice(cand)()
+    ind = '  ' * (depth + 1)
+    body = [f'{ind}do i = 1, n', f'{ind}  out(i) = ' + ' + '.join(ref() for _ in range(r.randint(2, 4))), f'{ind}end do']
+    for _ in range(r.randint(0, 2)):
+        body.append(f'{ind}{wref()} = {wref()} + {r.randint(1, 3)}.0')
+    lines = []
+    for lvl in range(depth):
+        lines.append('  ' * (lvl + 1) + 'associate (' + ', '.join(f'{n_} => {sl}' for n_, sl in levels[lvl]) + ')')
+    lines += body
+    for lvl in reversed(range(depth)):
+        lines.append('  ' * (lvl + 1) + 'end associate')
+    src = ('subroutine kern(n, k, j2, arr3d, out, obj)\n  use tmod, only: tt\n  implicit none\n  integer, intent(in) :: n, k, j2\n'
+           '  real, intent(in) :: arr3d(n, n, n)\n  real, intent(out) :: out(n)\n  type(tt), intent(inout) :: obj\n  integer :: i\n'
+           + '\n'.join(lines) + '\nend subroutine kern\n')
+    return r.choice((0, 0, 1, 1, 2)), r.randint(1, 3), r.randint(1, 3), src
+
+
+def _compile_run(src):
+    import subprocess, tempfile, shutil
+    d = tempfile.mkdtemp(prefix='c29dt_')
+    try:
+        with open(d + '/p.f90', 'w') as fh:
+            fh.write(src)
+        p = subprocess.run([fir.GFORTRAN, '-O0', '-w', '-fcheck=bounds', '-o', d + '/p', d + '/p.f90'], cwd=d,
+                           stdout=subprocess.PIPE, stderr=subprocess.STDOUT, text=True, timeout=300)
+        if p.returncode != 0:
+            return ('compile-error', p.stdout[-300:])
+        q = subprocess.run([d + '/p'], cwd=d, stdout=subprocess.PIPE, stderr=subprocess.STDOUT, text=True, timeout=60)
+        return ('ok' if q.returncode == 0 else 'run-error', q.stdout)
+    finally:
+        shutil.rmtree(d, ignore_errors=True)
+
+
+def dt_oracle(sd, k, j2, src, run):
+    """failures (strings) of resolve(start_depth=sd) on a derived-type source"""
+    from loki import Sourcefile
+    from loki.frontend import FP
+    from loki.ir import nodes as ir, FindNodes, FindVariables
+    from loki.expression import symbols as sym
+    from loki.transformations.sanitise.associates import do_resolve_associates
+    full = DT_MODULE + '\n' + src
+    if fir.gfortran_syntax_check(full) is not None:
+        raise ValueError('malformed source (gfortran rejects the original)')
+    sf = Sourcefile.from_source(full, frontend=FP)
+    fir._keepalive.append(sf)
+    routine = sf['kern']
+    n_before = len(FindNodes(ir.Associate).visit(routine.body))
+    try:
+        do_resolve_associates(routine, start_depth=sd)
+    except Exception as e:
+        return [f'resolve sd={sd} raised {type(e).__name__}: {str(e)[:150]}']
+    fails = []
+
+    def depth_ok(nodes, d):
+        for a in nodes:
+            if isinstance(a, ir.Associate):
+                if d > sd:
+                    return False
+                if not depth_ok(a.body, d + 1):
+                    return False
+            else:
+                for attr in ('body', 'else_body'):
+                    if isinstance(getattr(a, attr, None), tuple) and not depth_ok(getattr(a, attr), d):
+                        return False
+        return True
+    if not depth_ok(routine.body.body, 1):
+        fails.append(f'resolve sd={sd}: an ASSOCIATE block deeper than start_depth is left')
+    declared = {str(v.name).lower() for v in routine.variables}
+
+    def walk(nodes, bound):
+        for a in nodes:
+            if isinstance(a, ir.Associate):
+                for sel, _n in a.associations:
+                    check(sel, bound, 'selector')
+                walk(a.body, bound | {str(n_.name).lower() for _s, n_ in a.associations})
+            elif isinstance(a, ir.Loop):
+                check_node(a.bounds, bound); walk(a.body, bound)
+            elif isinstance(a, ir.Conditional):
+                check_node(a.condition, bound); walk(a.body, bound); walk(a.else_body, bound)
+            elif isinstance(a, ir.Assignment):
+                check_node(a.lhs, bound); check_node(a.rhs, bound)
+
+    def check_node(e, bound):
+        check(e, bound, 'expression')
+
+    def check(e, bound, what):
+        for v in FindVariables(unique=False).visit(e):
+            if isinstance(v, sym.ProcedureSymbol):
+                continue
+            root = v.parents[0] if getattr(v, 'parents', ()) else v
+            name = str(root.name).lower().split('%')[0]
+            if name not in declared and name not in bound:
+                fails.append(f'resolve sd={sd}: name `{name}` in {what} `{str(e)[:80]}` is neither declared nor bound by a '
+                             f'remaining ASSOCIATE block (dangling associate name)')
+    walk(routine.body.body, set())
+    fails = fails[:1]
+    text = sf.to_fortran()
+    err = fir.gfortran_syntax_check(text)
+    if err is not None and not fails:
+        fails.append(f'resolve sd={sd}: gfortran rejects the regenerated source: {str(err)[:200]}')
+    if run and not fails:
+        a = _compile_run(full + DT_DRIVER % (k, j2))
+        b = _compile_run(text + DT_DRIVER % (k, j2))
+        if a[0] == 'ok' and (b[0] != 'ok' or a[1] != b[1]):
+            fails.append(f'resolve sd={sd}: run of the transformed routine differs from the original (k={k}, j2={j2}): '
+                         f'{a[1][:120]!r} vs {b[0]} {b[1][:120]!r}')
+    return fails
+
+
+def undeclared_names(tprog):
+    """names used in the transformed FIR program that are neither declared nor bound by an enclosing ASSOCIATE block"""
+    bad = []
+
+    def walk(stmts, known):
+        for s in stmts:
+            h = _h(s)
+            if h == 'assoc':
+                for b in s[1]:
+                    bad.extend(x for x in ex_vars(b[1]) if x not in known)
+                walk(s[2], known | {str(b[0]) for b in s[1]})
+                continue
+            exprs = {'assign': lambda: [s[1], s[2]], 'do': lambda: [s[2], s[3]] + ([] if _is_none(s[4]) else [s[4]]),
+                     'while': lambda: [s[1]], 'if': lambda: [s[1]], 'select': lambda: [s[1]],
+                     'callsub': lambda: list(s[2:]), 'print': lambda: list(s[1:])}.get(h, lambda: [])()
+            for e in exprs:
+                bad.extend(x for x in ex_vars(e) if x not in known)
+            if h == 'do':
+                if str(s[1]) not in known:
+                    bad.append(str(s[1]))
+                walk(s[5], known)
+            elif h == 'while':
+                walk(s[2], known)
+            elif h == 'if':
+                walk(s[2], known); walk(s[3], known)
+            elif h == 'select':
+                for c in s[2]:
+                    walk(c[1], known)
+                walk(s[3], known)
+    for u in tprog[2:]:
+        walk(u[4], {fir.decl_fields(d)[0] for d in u[3]})
+    return bad
 
 
 # priority of classes when one failure has to be attributed to one class
@@ -672,8 +1037,22 @@ class C29(Prop):
                 mode, sd = 'both', r.choice((0, 1))
             req = [A('c29'), A(mode), sd, prog, inputs]
             yield Case(req, stream=mode, nontrivial=True)
+        # targeted families (see gen_partial / gen_dt_source)
+        for k in range({'quick': 5, 'thorough': 40, 'search': 40}.get(tier, 5)):
+            r = random.Random(rng.randrange(1 << 30))
+            try:
+                mode, sd, prog, inputs = gen_partial(r)
+            except Exception:
+                continue        # frontend / exporter limits on a generated selector
+            yield Case([A('c29'), A(mode), sd, prog, inputs], stream='partial-depth', nontrivial=True)
+        for k in range({'quick': 3, 'thorough': 24, 'search': 24}.get(tier, 3)):
+            r = random.Random(rng.randrange(1 << 30))
+            sd, kk, j2, src = gen_dt_source(r)
+            yield Case([A('c29s'), A('resolve'), sd, kk, j2, src], stream='derived-type', nontrivial=True)
 
     def shrink_candidates(self, req):
+        if _h(req) == 'c29s':
+            return
         mode, sd, prog, inputs = req[1], req[2], req[3], req[4]
         if len(inputs) > 1:
             for k in range(len(inputs)):
@@ -688,6 +1067,9 @@ class C29(Prop):
 
     # -- real code
     def impl(self, req):
+        if _h(req) == 'c29s':
+            dec_src_req(req)
+            return [A('ok'), A('structural')]
         mode, sd, prog, _inputs = dec_req(req)
         r = transform_real(prog, mode, sd)
         if r[0] == 'error' and r[1] == 'unsupported' and not roundtrip_ok(prog):
@@ -701,6 +1083,9 @@ class C29(Prop):
 
     # -- direct oracle
     def oracle(self, req):
+        if _h(req) == 'c29s':
+            sd, k, j2, src = dec_src_req(req)
+            return [Failure(w, None) for w in dt_oracle(sd, k, j2, src, run=self._tier == 'thorough')]
         mode, sd, prog, inputs = dec_req(req)
         flags = classify(prog, mode, sd)
 
@@ -721,6 +1106,10 @@ class C29(Prop):
         if has_empty_assoc(tprog):
             fails.append(Failure('transformed code contains ASSOCIATE with an empty association list (not Fortran: '
                                  'gfortran rejects it)', 'merge_empty_associate' if 'merge_empty_associate' in flags else None))
+        und = undeclared_names(tprog)
+        if und:
+            fails.append(Failure(f'{mode} sd={sd}: the transformed code uses `{und[0]}`, which is neither declared nor bound by a '
+                                 f'remaining ASSOCIATE block', cls_of()))
         refs = []
         for k, inp in enumerate(inputs):
             st = {}
